@@ -34,6 +34,9 @@ SPELL = {
 }
 
 
+DEFAULT_ANSWER = {'int': '1', 'float': '2.5', 'bool': 'yes'}
+
+
 def spell_value(typ, text):
     for t, ok, val in SPELL[typ]:
         if t == text:
@@ -332,7 +335,7 @@ def model(program):
                         if prompt['mode'] == 'refuse' and len(asked) >= prompt['k']:
                             refused[0] = True
                         else:
-                            known[ni.name] = answers[ni.name]
+                            known[ni.name] = answers.get(ni.name, DEFAULT_ANSWER[input_spec(ni.name)['type']])
                             asked.append(ni.name)
                             changed = True
                 except _NotImpl:
